@@ -15,6 +15,7 @@ import (
 	"net/http"
 	"net/http/httptest"
 	"net/url"
+	"os"
 	"strings"
 	"time"
 
@@ -48,13 +49,14 @@ type Prov struct {
 	oidcKeys jose.JSONWebKeySet
 	admins   []string
 	domains  []string
+	cloud    *cloudCfg // aws / gcp / azure
 }
 
 func (p *Prov) tokenID() string {
 	switch p.Ty {
 	case "jwk":
 		return p.Name + ":" + p.Kid
-	case "oidc":
+	case "oidc", "azure":
 		return p.ClientID
 	case "k8ssa":
 		return provisioner.K8sSAID
@@ -76,6 +78,9 @@ type World struct {
 	sshUser crypto.Signer            // nil: no user CA key configured
 	sshHost crypto.Signer            // nil: no host CA key configured
 	popKeys []crypto.Signer
+	tmpFiles []string
+	keyring  []ringKey // every SSH public key the authority knows: own, retired (ssh.keys federated=false), federated
+	certType string // SSH certificate type of the request being presented ("" = not stated)
 }
 
 func must[T any](v T, err error) T {
@@ -110,7 +115,16 @@ func leafFrom(root *x509.Certificate, rk crypto.Signer, cn string, ku x509.KeyUs
 	return must(x509.ParseCertificate(der)), k
 }
 
+// ringKey is one SSH CA public key and how the authority knows it.
+type ringKey struct {
+	pub    ssh.PublicKey
+	signer crypto.Signer // to mint certificates under it
+	user   bool
+	cls    string // o(wn) | r(etired) | f(ederated)
+}
+
 type worldSpec struct {
+	extraSSH bool // ssh.keys: a retired and a federated key of each type
 	hosts []string
 	db    bool   // bbolt database (default: none, tokens tracked in memory)
 	only  string // "user" / "host": the authority has only that SSH CA key (ssh must be true)
@@ -120,7 +134,7 @@ type worldSpec struct {
 }
 
 var worldSpecs = []worldSpec{
-	{hosts: []string{"ca.verif.test"}, ssh: true, full: true},
+	{hosts: []string{"ca.verif.test"}, ssh: true, full: true, extraSSH: true},
 	{hosts: []string{"ca.verif.test", "::1"}, ssh: false, full: true},
 	{hosts: []string{"CA2.verif.test:8443", "10.1.2.3"}, ssh: true, noIat: true, full: false},
 	// only one of the two SSH CA keys configured: certificates of the other type have no CA key at all
@@ -193,6 +207,8 @@ func newWorld(spec worldSpec) *World {
 		domains := []string{"example.com"}
 		add(&Prov{Ty: "oidc", Name: "oidc", ClientID: "client-abc", Issuer: issuer, Init: true, SSH: true, jwk: ok, oidcKeys: set, admins: admins, domains: domains},
 			&provisioner.OIDC{Type: "OIDC", Name: "oidc", ClientID: "client-abc", ConfigurationEndpoint: w.srv.URL, Admins: admins, Domains: domains, Claims: sshClaims})
+		// cloud identity provisioners, keys served by the same local server
+		w.addClouds(add, mux, sshClaims)
 		// acme, scep (no token credential at all)
 		add(&Prov{Ty: "acme", Name: "acme", Init: true}, &provisioner.ACME{Type: "ACME", Name: "acme"})
 		add(&Prov{Ty: "scep", Name: "scep", Init: true}, &provisioner.SCEP{Type: "SCEP", Name: "scep", ChallengePassword: "secret"})
@@ -222,6 +238,29 @@ func newWorld(spec worldSpec) *World {
 		w.sshHost = must(ecdsa.GenerateKey(elliptic.P256(), rand.Reader))
 		fo.Extra = []authority.Option{authority.WithSSHHostSigner(w.sshHost)}
 	}
+	var extra4 []ringKey
+	if spec.extraSSH {
+		var keys []*config.SSHPublicKey
+		for _, user := range []bool{false, true} {
+			for _, cls := range []string{"r", "f"} {
+				k := must(ecdsa.GenerateKey(elliptic.P256(), rand.Reader))
+				typ := "host"
+				if user {
+					typ = "user"
+				}
+				keys = append(keys, &config.SSHPublicKey{Type: typ, Federated: cls == "f", Key: jose.JSONWebKey{Key: k.Public()}})
+				extra4 = append(extra4, ringKey{pub: must(ssh.NewPublicKey(k.Public())), signer: k, user: user, cls: cls})
+			}
+		}
+		inner := fo.Config
+		fo.Config = func(c *config.Config) {
+			inner(c)
+			c.SSH = &config.SSHConfig{Keys: keys}
+			if err := c.SSH.Validate(); err != nil {
+				panic(err)
+			}
+		}
+	}
 	ca, err := fixture.New(fo)
 	if err != nil {
 		panic(fmt.Sprintf("fixture: %v", err))
@@ -229,18 +268,25 @@ func newWorld(spec worldSpec) *World {
 	if spec.ssh && spec.only == "" {
 		w.sshUser, w.sshHost = ca.SSHUser, ca.SSHHost
 	}
+	if w.sshHost != nil {
+		w.keyring = append(w.keyring, ringKey{pub: must(ssh.NewPublicKey(w.sshHost.Public())), signer: w.sshHost, user: false, cls: "o"})
+	}
+	if w.sshUser != nil {
+		w.keyring = append(w.keyring, ringKey{pub: must(ssh.NewPublicKey(w.sshUser.Public())), signer: w.sshUser, user: true, cls: "o"})
+	}
+	w.keyring = append(w.keyring, extra4...)
 	w.ca = ca
 	w.start = ca.Auth.GetInfo().StartTime
 	// default provisioner "jwk" goes first in the collection
 	def := &Prov{Ty: "jwk", Name: "jwk", Kid: ca.JWK.KeyID, Init: true, SSH: true, jwk: ca.JWK, real: ca.JWKProv, Configured: true}
 	w.provs = append([]*Prov{def}, w.provs...)
 	w.minters = append([]*Prov{def}, w.minters...)
+	// the independent reading used by the property oracle: the CA's own SSH keys, current and retired
 	w.sshKeys = map[bool][]ssh.PublicKey{}
-	if w.sshUser != nil {
-		w.sshKeys[true] = []ssh.PublicKey{must(ssh.NewPublicKey(w.sshUser.Public()))}
-	}
-	if w.sshHost != nil {
-		w.sshKeys[false] = []ssh.PublicKey{must(ssh.NewPublicKey(w.sshHost.Public()))}
+	for _, rk := range w.keyring {
+		if rk.cls != "f" {
+			w.sshKeys[rk.user] = append(w.sshKeys[rk.user], rk.pub)
+		}
 	}
 	// cross-check the ids the model derives against the real provisioners
 	for _, p := range w.provs {
@@ -255,6 +301,9 @@ func (w *World) close() {
 	w.ca.Close()
 	if w.srv != nil {
 		w.srv.Close()
+	}
+	for _, f := range w.tmpFiles {
+		os.Remove(f)
 	}
 }
 
